@@ -66,9 +66,32 @@ def cert_K6(repo):
     # K7: inline copy in linform
     fl = prog.func(IP, 'InitialOperator.linform')
     inl = {}
+    from .absint import cond_dnf, fact_key
+    want0 = [sorted(map(str, map(fact_key, c_))) for c_ in cond_dnf(
+        ast.parse('a == 0', mode='eval').body, {})]
+    for fnode, where in ((fi.node, fi), (fl.node, fl)):
+        for n in ast.walk(fnode):
+            if isinstance(n, ast.If):
+                try:
+                    got0 = [sorted(map(str, map(fact_key, c_)))
+                            for c_ in cond_dnf(n.test, {})]
+                except Exception:
+                    continue
+                if got0 != want0:
+                    continue
+                exact = isinstance(n.test, ast.Compare) and len(
+                    n.test.ops) == 1 and isinstance(n.test.ops[0], ast.Eq)
+                c.add('K6', '%s: start-at-zero test is exact' %
+                      where.qualname, where.where(n), exact,
+                      'the case "interval starts at t = 0" must be decided '
+                      'by an exact comparison: for any a > 0, however '
+                      'small, the lower-limit term E1(r^2/(4a)) is part of '
+                      'the integral; found `%s`' % text(n.test),
+                      construct='%s: exact a == 0 test' % where.qualname)
     for n in ast.walk(fl.node):
-        if isinstance(n, ast.If) and text(n.test).replace(' ', '') in (
-                'a==0', '0==a'):
+        if isinstance(n, ast.If) and [sorted(map(str, map(fact_key, c_)))
+                                      for c_ in cond_dnf(n.test, {})] == \
+                want0:
             for branch, key in ((n.body, 'a==0'), (n.orelse, 'a>0')):
                 for s in branch:
                     if isinstance(s, ast.Assign) and text(
